@@ -11,6 +11,7 @@
 package main
 
 import (
+	"fmt"
 	"strings"
 	"time"
 
@@ -83,7 +84,7 @@ func main() {
 			}
 			when := time.Unix(cc.I("when"), 0).UTC()
 			sig := object.Signature{Name: "A U Thor", Email: "a@x", When: when}
-			cm := &object.Commit{Author: sig, Committer: sig, Message: "m\n", TreeHash: th}
+			cm := &object.Commit{Author: sig, Committer: sig, Message: fmt.Sprintf("c%d\n", i), TreeHash: th}
 			for _, p := range cc.L("parents") {
 				cm.ParentHashes = append(cm.ParentHashes, ids[lib.Case{"x": p}.I("x")])
 			}
